@@ -288,6 +288,29 @@ func runC07(c *Ctx) {
 		c.guarded(fn, g, 1, "truncateHeaders / truncateIndices", eff, 2, gDominate)
 		c.guarded(fn, errNil("chainTip()", find(fn, callTo(tip)), 2), 1, "truncateHeaders / truncateIndices", eff, 2, gDominate)
 	})
+	c.rule("C07.G2", "the filter-header store refuses a rollback past genesis before touching anything: in filterHeaderStore.RollbackLastBlock both truncations are reachable only after the header at (tip height - 1) was read successfully (at tip height 0 the subtraction wraps and the read fails) or after an explicit tip-height comparison; a rollback at genesis must not move the index or cut the file", func() {
+		fn := c.fn("(*headerfs.filterHeaderStore).RollbackLastBlock")
+		tip := c.hfs("headerIndex", "chainTip")
+		isTip := func(v ssa.Value) bool { return ir.DerivesFrom(v, valIsCallTo(tip)) }
+		var reads []ssa.Instruction
+		for _, f := range c.fns("(*headerfs.filterHeaderStore).readHeader") {
+			obj, _ := f.Object().(*types.Func)
+			for _, x := range find(fn, callTo(obj)) {
+				a := argsOf(x)
+				if b, ok := a[len(a)-1].(*ssa.BinOp); ok && b.Op == token.SUB && isTip(b.X) {
+					if k, isC := ir.ConstInt(b.Y); isC && k == 1 {
+						reads = append(reads, x)
+					}
+				}
+			}
+		}
+		g := errNil("readHeader(chainTipHeight-1)", reads, 1)
+		cmp, _ := relGuard("chainTipHeight > 0", fn, isTip, constIntIs(0), token.GTR)
+		g.sites = append(g.sites, cmp.sites...)
+		g.found += cmp.found
+		eff := find(fn, callTo(c.hfs("headerFile", "truncateHeaders"), c.hfs("headerIndex", "truncateIndices")))
+		c.guarded(fn, g, 1, "truncateHeaders / truncateIndices", eff, 2, gDominate)
+	})
 }
 
 // indexAtomic: the header index is changed by exactly one database transaction
